@@ -28,6 +28,11 @@ from workflows.context.state_store import DictState  # noqa: E402
 from workflows.events import Event, StopEvent  # noqa: E402
 
 PID = "C21"
+
+
+class _OtherModel(__import__("pydantic").BaseModel):
+    x: int = 0
+
 import logging  # noqa: E402
 
 logging.getLogger("llama_agents").setLevel(logging.ERROR)
@@ -168,6 +173,12 @@ def apply(env: Env, op: str) -> Any:
             return plain(await env.ss().get_state())
         if op == "state_set_state":
             return await env.ss().set_state(DictState(z=1))
+        if op == "state_set_state_bad":
+            # a caller error: a state model that is neither the store's model nor a parent of it (merge_state raises ValueError)
+            return await env.ss().set_state(_OtherModel(x=1))  # type: ignore[arg-type]
+        if op == "state_set_unserializable":
+            # a value the JSON serializer cannot write: the write fails after the row was read
+            return await env.ss().set_state(DictState(bad={1, 2}, blob=b"\xff"))
         if op == "state_clear":
             return await env.ss().clear()
         if op == "state_edit":
@@ -193,7 +204,8 @@ def apply(env: Env, op: str) -> Any:
 HANDLER_OPS = ["upsert_running", "upsert_completed", "upsert_other", "query_all", "query_running", "delete_h1", "status_idle", "status_failed"]
 EVENT_OPS = ["append_event", "append_stop", "query_events", "query_events_after0"]
 TICK_OPS = ["append_tick", "append_tick_x3", "get_ticks", "stream_ticks_all", "tick_stream_open_read1", "tick_stream_read_rest"]
-STATE_OPS = ["state_set", "state_get", "state_get_state", "state_set_state", "state_clear", "state_edit", "state_seed_copy"]
+STATE_OPS = ["state_set", "state_get", "state_get_state", "state_set_state", "state_clear", "state_edit", "state_seed_copy",
+             "state_set_state_bad", "state_set_unserializable"]
 ALL_OPS = HANDLER_OPS + EVENT_OPS + TICK_OPS + STATE_OPS + ["reopen"]
 _DIR: dict[str, str] = {}
 
@@ -251,10 +263,10 @@ def work(case: Any) -> Any:
     return n, nontriv, out, {"prefix": list(prefix), "sequences": n}, n * (len(prefix) + depth - 1)
 
 
-RULE = ("every sequence (length <= 3 over all 26 operations; length <= 5 inside the tick family incl. a tick stream left open "
+RULE = ("every sequence (length <= 3 over all 28 operations; length <= 5 inside the tick family incl. a tick stream left open "
         "across appends, and length 4 over state-store x other-family operations) of handler upserts / queries / deletes / "
         "status updates, event appends / queries, tick appends / reads / paged streams and state-store operations (set, get, "
-        "get_state, set_state, clear, edit_state, seeding a second run from the first) and 'reopen' (the process ends without "
+        "get_state, set_state - also with an incompatible model and with an unserializable value, both of which raise -, clear, edit_state, seeding a second run from the first) and 'reopen' (the process ends without "
         "a shutdown call, a new store opens the same file and reads everything back) on two real DB files: "
         "single_connection=True vs per-call connections; results and raised exceptions compared after every step; "
         "non-trivial = sequences of length >= 2")
@@ -268,7 +280,7 @@ def run(tier: str, seed: int) -> Any:
     tick_al = TICK_OPS
     for a in tick_al:
         cases.append(([a], 5 if tier != "quick" else 4, tick_al))
-    mixed = ["state_set", "state_get_state", "state_edit", "state_clear", "upsert_running", "query_all", "append_event", "query_events",
+    mixed = ["state_set", "state_set_state_bad", "state_set_unserializable", "state_get_state", "state_edit", "state_clear", "upsert_running", "query_all", "append_event", "query_events",
              "append_tick", "get_ticks", "status_idle", "reopen"]
     for a in mixed:
         cases.append(([a], 4 if tier != "quick" else 3, mixed))
